@@ -1,4 +1,5 @@
 import Corro.Props.C03
+import Corro.Props.C03Sql
 #print axioms Corro.Node.seq_merge_spec
 #print axioms Corro.Node.seq_merge_spec_other
 #print axioms Corro.Node.seq_merge_case5_total
@@ -12,3 +13,10 @@ import Corro.Props.C03
 #print axioms Corro.Node.apply_eq_unchunked_two
 #print axioms Corro.Node.partial_resolved_by_holder
 #print axioms Corro.Node.partial_resolved_by_empty
+#print axioms Corro.Node.extracted_touching_eq_model
+#print axioms Corro.Node.extracted_touching_spec
+#print axioms Corro.Node.extracted_delete_is_model_delete
+#print axioms Corro.Node.extracted_buffer_key_is_model_key
+#print axioms Corro.Node.extracted_clear_key_includes_site
+#print axioms Corro.Node.extracted_clear_selects_model_rows
+#print axioms Corro.Node.extracted_gap_test_from_zero
